@@ -153,9 +153,12 @@ def clause_b(repo, chk, tier):
     for key, mats in sites:
         f = repo.fn(key)
         found = 0
+        from .c07 import expand as _expand, single_defs as _single_defs
+
+        _defs = {k: v for k, v in _single_defs(f.node).items() if k not in mats}  # the covariance argument keeps its name
         for n in walk_local(f.node):
             if isinstance(n, ast.Call) and isinstance(n.func, ast.Attribute) and n.func.attr == "sqrt":
-                q = _is_quadform(n)
+                q = _is_quadform(_expand(n, _defs))  # named intermediates (V.g) are looked through
                 if q is None:
                     continue
                 found += 1
@@ -182,17 +185,23 @@ def clause_b(repo, chk, tier):
             arg = n.value.args[0]
             if h_ok and isinstance(arg, ast.Name) and (arg.id == hname or hname in der.get(arg.id, ())):
                 inv_ok = True
-    for n in walk_local(f.node):
-        if isinstance(n, ast.Assign) and isinstance(n.targets[0], ast.Name) and n.targets[0].id == "hesse_error":
-            txt = norm_text(n.value)
-            names = {x.id for x in ast.walk(n.value) if isinstance(x, ast.Name)}
-            closure = set(names)
-            for nm in names:
-                closure |= der.get(nm, set())
-            has_sqrt = any(isinstance(x, ast.Attribute) and x.attr == "sqrt" for x in ast.walk(n.value))
-            has_abs = any(isinstance(x, ast.Attribute) and x.attr in ("fabs", "abs") for x in ast.walk(n.value))
-            diag = any(isinstance(x, ast.Attribute) and x.attr in ("diagonal", "diag") for y in [n.value] + [v for nm in names for v in []] for x in ast.walk(y)) or "diag_he" in names
-            err_ok = has_sqrt and has_abs and "inv_he" in closure
+    from .c07 import expand as _expand2, single_defs as _single_defs2
+
+    rets = [r for r in walk_local(f.node) if isinstance(r, ast.Return) and r.value is not None]
+    if not rets:
+        raise AnalysisError("cal_hesse_error has no return")
+    rv = rets[-1].value
+    first = rv.elts[0] if isinstance(rv, ast.Tuple) and rv.elts else rv
+    # the returned error expression, with single-assignment temporaries looked through (but not the inverse itself)
+    d2 = {k: v for k, v in _single_defs2(f.node).items() if k != "inv_he"}
+    ex = _expand2(first, d2)
+    names = {x.id for x in ast.walk(ex) if isinstance(x, ast.Name)}
+    closure = set(names)
+    for nm in names:
+        closure |= der.get(nm, set())
+    has_sqrt = any(isinstance(x, ast.Attribute) and x.attr == "sqrt" for x in ast.walk(ex))
+    has_abs = any(isinstance(x, ast.Attribute) and x.attr in ("fabs", "abs") for x in ast.walk(ex))
+    err_ok = has_sqrt and has_abs and "inv_he" in closure
     chk.instance("E3-quad", "cal_hesse_error: h from nll_grad_hessian=%s, inv(h)=%s, sqrt(|diag inv_he|)=%s" % (h_ok, inv_ok, err_ok))
     if not (h_ok and inv_ok and err_ok):
         chk.violation("E3-quad", f.key, "hesse-wiring", "parameter errors are no longer sqrt(|diag(inv(Hessian))|) of the Hessian returned by nll_grad_hessian", file=f.mod.rel, line=f.lineno)
@@ -203,89 +212,49 @@ def clause_c(repo, chk):
     """cal_err: the gradient list and the error list zipped in sqrt(sum((g*e)^2)) have one entry per argument"""
     chk.rule("C-align", "cal_err pairs each partial derivative with the error of the same argument: values and errors are collected once per argument in every branch (constants get error 0), gradients once per value")
     fn = repo.fn("tf_pwa/err_num.py::cal_err")
-    # the final combination
-    zips = [n for n in walk_local(fn.node) if isinstance(n, ast.Call) and isinstance(n.func, ast.Name) and n.func.id == "zip" and len(n.args) == 2]
-    comb = None
-    for z in zips:
-        a, b = [norm_text(x) for x in z.args]
-        comb = (a, b)
-    if comb is None:
-        raise AnalysisError("cal_err: zip(grad, errors) not found")
-    gname, ename = comb
+    # cal_err interpreted as a whole on three arguments (uncertain, constant, uncertain - and the constant first), with a
+    # user gradient and with the built-in central difference on a linear function: err^2 == sum (g_i e_i)^2 with e = 0
+    # for the constant.  Robust to loop shape (if/else, early continue), temporaries and comprehension forms.
+    from ..sym import PyFunc, SelfObj, Translator, Unmodelled
 
-    def builders(name):
-        """how list `name` is filled: [('loop', iter text, per-branch counts) | ('comp', iter text, has filter) | ('call', text)]"""
-        out = []
-        for n in walk_local(fn.node):
-            if isinstance(n, ast.Assign) and isinstance(n.targets[0], ast.Name) and n.targets[0].id == name:
-                v = n.value
-                if isinstance(v, (ast.ListComp, ast.GeneratorExp)):
-                    g0 = v.generators[0]
-                    out.append(("comp", norm_text(g0.iter), bool(g0.ifs) or len(v.generators) > 1))
-                elif isinstance(v, ast.List) and not v.elts:
-                    pass
-                elif isinstance(v, ast.Call):
-                    out.append(("call", norm_text(v)))
-                else:
-                    out.append(("other", norm_text(v)))
-        for lp in [n for n in walk_local(fn.node) if isinstance(n, ast.For)]:
-            def count(stmts):
-                c = 0
-                for st in stmts:
-                    if isinstance(st, ast.Expr) and isinstance(st.value, ast.Call) and isinstance(st.value.func, ast.Attribute) and st.value.func.attr == "append" and norm_text(st.value.func.value) == name:
-                        c += 1
-                return c
-            direct = count(lp.body)
-            branch_counts = []
-            for st in lp.body:
-                if isinstance(st, ast.If):
-                    branch_counts.append((count(st.body), count(st.orelse)))
-            if direct or any(x or y for x, y in branch_counts):
-                out.append(("loop", norm_text(lp.iter), direct, tuple(branch_counts)))
-        return out
-
-    def per_argument(bs, over):
-        """exactly one element per item of an iteration over `over`"""
-        if not bs:
-            return False
-        for b in bs:
-            if b[0] == "comp":
-                if b[2] or over not in b[1]:
-                    return False
-            elif b[0] == "loop":
-                it, direct, branches = b[1], b[2], b[3]
-                if over not in it:
-                    return False
-                per_iter = {direct + x for x, y in branches} | {direct + y for x, y in branches} if branches else {direct}
-                if per_iter != {1}:
-                    return False
-            elif b[0] == "call":
-                continue
+    ne = repo.cls(ERRNUM)
+    a, b, c0, ea, eb = sp.symbols("a b c0 ea eb", positive=True)
+    k1, k2, k3 = sp.symbols("k1 k2 k3", real=True)
+    bad = []
+    n_cases = 0
+    for order in ("ucu", "cuu"):
+        vals = {"u1": (a, ea), "u2": (b, eb)}
+        args, want_terms = [], []
+        us = iter([(a, ea), (b, eb)])
+        ks = [k1, k2, k3]
+        for pos, ch in enumerate(order):
+            if ch == "u":
+                v, e = next(us)
+                args.append(SelfObj(ne, {"_value": v, "_error": e}))
+                want_terms.append((ks[pos] * e) ** 2)
             else:
-                return False
-        return True
-
-    eb = builders(ename)
-    ok_e = per_argument(eb, "args")
-    vb = builders("value")
-    ok_v = per_argument(vb, "args")
-    gb = builders(gname)
-    ok_g = per_argument([b for b in gb if b[0] != "call"], "value") if any(b[0] != "call" for b in gb) else False
-    ok_gcall = all("value" in b[1] for b in gb if b[0] == "call")
-    chk.instance("C-align", "cal_err: zip(%s, %s); errors per argument: %s %s; values per argument: %s; gradient per value: %s, user gradient called on the values: %s" % (gname, ename, ok_e, eb, ok_v, ok_g, ok_gcall))
-    if not (ok_e and ok_v and ok_g and ok_gcall):
-        chk.violation("C-align", fn.key, "alignment", "the lists zipped in sqrt(sum((g*e)^2)) are not built one entry per argument (errors: %s, values: %s, gradient: %s): a constant argument shifts the pairing of derivatives and errors" % (eb, vb, gb), file="tf_pwa/err_num.py", line=fn.lineno)
-    # the combination itself: sqrt(sum((i*j)**2 ...))
-    sq = [n for n in walk_local(fn.node) if isinstance(n, ast.Call) and isinstance(n.func, ast.Attribute) and n.func.attr == "sqrt"]
-    ok_c = False
-    for c in sq:
-        t = norm_text(c)
-        if "sum(" in t and "** 2" in t and "zip(" in t:
-            ge = [x for x in ast.walk(c) if isinstance(x, (ast.GeneratorExp, ast.ListComp))]
-            if ge and isinstance(ge[0].elt, ast.BinOp) and isinstance(ge[0].elt.op, ast.Pow) and isinstance(ge[0].elt.left, ast.BinOp) and isinstance(ge[0].elt.left.op, ast.Mult):
-                tg = {x.id for x in ast.walk(ge[0].generators[0].target) if isinstance(x, ast.Name)}
-                ops = {norm_text(ge[0].elt.left.left), norm_text(ge[0].elt.left.right)}
-                ok_c = ops == tg
-    chk.instance("C-align", "cal_err: err = sqrt(sum((g_i * e_i)**2)): %s" % ok_c)
-    if not ok_c:
-        chk.violation("C-align", fn.key, "combination", "cal_err no longer combines sqrt(sum((g_i*e_i)^2)) over the zipped pairs", file="tf_pwa/err_num.py", line=fn.lineno)
+                args.append(c0)
+        for with_grad in (True, False):
+            hooks = {
+                "builtin.isinstance": lambda tr, ar, kw, n: isinstance(ar[0], SelfObj) and ar[0].cls is ne,
+                ne.key: lambda tr, ar, kw, n: ("NumberError", ar[0], ar[1] if len(ar) > 1 else kw.get("error")),
+            }
+            tr = Translator(repo, hooks=hooks, max_depth=2)
+            fun = PyFunc(lambda *xs, **kw: sum(k * x for k, x in zip(ks, xs)))
+            kwargs = {"grad": PyFunc(lambda *xs, **kw: list(ks))} if with_grad else {}
+            try:
+                out = tr.call_fn(fn, [fun] + args, kwargs)
+            except Unmodelled as e:
+                raise AnalysisError("cal_err not interpretable (%s, grad %s): %s" % (order, with_grad, e))
+            n_cases += 1
+            if not (isinstance(out, tuple) and out and out[0] == "NumberError"):
+                bad.append("%s: does not return NumberError(value, error)" % order)
+                continue
+            err = sp.sympify(out[2])
+            want = sp.sqrt(sum(want_terms))
+            if equal(err ** 2, want ** 2)[0] is not True:
+                bad.append("arguments %s (%s): error %s, first-order propagation requires %s" % (order.replace("u", "uncertain ").replace("c", "constant "), "user gradient" if with_grad else "central difference", sp.simplify(err), want))
+    chk.instance("C-align", "cal_err interpreted on %d cases (uncertain/constant argument orders x user gradient / central difference of a linear function): err == sqrt(sum (g_i e_i)^2) with e = 0 for constants: %s" % (n_cases, not bad))
+    chk.instance("C-align", "cal_err: one value, one error and one derivative per argument (decided by the interpretation above)")
+    if bad:
+        chk.violation("C-align", fn.key, "alignment", "cal_err does not pair each derivative with the error of its own argument / combine them in quadrature: %s" % "; ".join(bad[:2]), file="tf_pwa/err_num.py", line=fn.lineno)
